@@ -387,8 +387,12 @@ class Harness(object):
             dname = 'd_f%d.dat' % i
             b.data[dname] = content
             b.files.append((rel, dname, f['kind']))
-            sh.append('if [ -f %s ]; then cat %s > %s; fi' % (dname, dname,
-                                                              target))
+            if TMP_MARK.encode() in content:
+                copy = 'sed "s|%s|$TMPDIR|g" %s' % (TMP_MARK, dname)
+            else:
+                copy = 'cat %s' % dname
+            sh.append('if [ -f %s ]; then %s > %s; fi' % (dname, copy,
+                                                          target))
         sh.append('read s < d_status.dat')
         sh.append('exit $s')
         if not os.path.isdir(os.path.join(b.cwd, 'sub')):
@@ -416,7 +420,7 @@ class Harness(object):
         if case.get('pre'):
             for rel, dname, kind in b.files:
                 with open(os.path.join(b.cwd, rel), 'wb') as f:
-                    f.write(b.data[dname])
+                    f.write(self.expected_file(b, dname, self.gtmp))
         # how the outputs are named to gentest
         spec = case.get('spec', 'none')
         rels = [rel for rel, _, _ in b.files]
@@ -452,6 +456,9 @@ class Harness(object):
     def expected_stdout(self, b, tmpdir):
         return b.data['d_out.dat'].replace(TMP_MARK.encode(),
                                            tmpdir.encode())
+
+    def expected_file(self, b, dname, tmpdir):
+        return b.data[dname].replace(TMP_MARK.encode(), tmpdir.encode())
 
     def expected_stderr(self, b, tmpdir):
         return b.data['d_err.dat'].replace(TMP_MARK.encode(),
